@@ -181,13 +181,12 @@ Proof.
     + exfalso. lia.
 Qed.
 
+Lemma ver_round_as_decimal x : ver_round x = ver_of_decimal (ver_to_milli x) 3.
+Proof. reflexivity. Qed.
+
 Lemma ver_round_of_decimal k : k < 65536000 -> ver_round (ver_of_decimal k 3) = ver_of_decimal k 3.
 Proof.
-  intros Hk. rewrite ver_of_decimal_3 by exact Hk. unfold ver_round.
-  set (v := (k * 131072 + 1000) / 2000).
-  assert (H1 : 2000 * v <= k * 131072 + 1000 < 2000 * v + 2000) by (unfold v; lia).
-  assert (Hk' : (v * 1000 * 2 + 65536) / (2 * 65536) = k) by lia.
-  rewrite Hk'. fold v. apply N.mod_small. lia.
+  intros Hk. rewrite ver_round_as_decimal, ver_to_milli_of_decimal by exact Hk. reflexivity.
 Qed.
 
 Lemma ver_to_milli_bound v : v < 4294967296 -> ver_to_milli v <= 65536000.
